@@ -198,3 +198,63 @@ func VerifH_C06_context() {
 	seq := verifSeq(2+verifChoose("len", verifParam("maxlen", 3)), 4)
 	checkShape(ll, gd, []LookupIndex{0}, seq, "context")
 }
+
+// VerifH_C06_chained: chained contexts (glyph based and coverage based) at top level and as a nested lookup of
+// a contextual rule, where the nested rule's lookahead lies behind the parent's input sequence.
+func VerifH_C06_chained() {
+	shape := verifChoose("shape", 4) // first decision: one process per shape
+	// flags: nothing ignored or marks ignored; glyph 4 is a mark or unclassified (the full flag / GDEF space is
+	// covered by the other C06 harnesses, which share keepFunc with this code)
+	meta := &LookupMetaInfo{LookupType: 6}
+	if verifBool("ignoremarks") {
+		meta.LookupFlags = IgnoreMarks
+	}
+	gd := &gdef.Table{GlyphClass: classdef.Table{1: 1, 2: 1, 3: 1}}
+	if verifBool("mark4") {
+		gd.GlyphClass[4] = 3
+	}
+	single := &LookupTable{Meta: &LookupMetaInfo{LookupType: 1}, Subtables: []Subtable{&Gsub1_1{Cov: coverage.Set{1: true, 2: true, 3: true}, Delta: 30}}}
+	set := func(tag string) coverage.Set {
+		// a solver-chosen subset of {1,2} (glyph 3 is in no set, glyph 4 is the ignorable one)
+		// (membership is stored as a symbolic truth value: no case split until a lookup needs it)
+		m := verifU8(tag)
+		s := coverage.Set{}
+		for g := glyph.ID(1); g <= 2; g++ {
+			s[g] = m&(1<<g) != 0
+		}
+		return s
+	}
+	small := func(tag string, n int) []glyph.ID {
+		gg := verifGIDList(tag, n)
+		for _, g := range gg {
+			verifAssume(g >= 1 && g <= 4)
+		}
+		return gg
+	}
+	act := []SeqLookup{{SequenceIndex: verifU16("seqidx"), LookupListIndex: 1}}
+	verifAssume(act[0].SequenceIndex <= 2)
+	var ll LookupList
+	switch shape {
+	case 0: // coverage based, top level
+		st := &ChainedSeqContext3{Backtrack: []coverage.Set{set("b")}, Input: []coverage.Set{set("i0"), set("i1")}, Lookahead: []coverage.Set{set("l")}, Actions: act}
+		ll = LookupList{{Meta: meta, Subtables: []Subtable{st}}, single}
+	case 1: // glyph based, top level
+		st := &ChainedSeqContext1{Cov: coverage.Table{1: 0}, Rules: [][]*ChainedSeqRule{{{Backtrack: small("b", 1), Input: small("i", 1), Lookahead: small("l", 1), Actions: act}}}}
+		ll = LookupList{{Meta: meta, Subtables: []Subtable{st}}, single}
+	case 2: // a contextual rule over one or two glyphs whose nested lookup is a coverage based chaining rule
+		inner := &LookupTable{Meta: &LookupMetaInfo{LookupType: 6, LookupFlags: meta.LookupFlags}, Subtables: []Subtable{
+			&ChainedSeqContext3{Backtrack: []coverage.Set{}, Input: []coverage.Set{set("i0")}, Lookahead: []coverage.Set{set("l")}, Actions: []SeqLookup{{SequenceIndex: 0, LookupListIndex: 1}}}}}
+		outer := &SeqContext1{Cov: coverage.Table{1: 0}, Rules: [][]*SeqRule{{{Input: small("oi", verifChoose("olen", 2)), Actions: []SeqLookup{{SequenceIndex: verifU16("oseq"), LookupListIndex: 2}}}}}}
+		verifAssume(outer.Rules[0][0].Actions[0].SequenceIndex <= 1)
+		meta.LookupType = 5
+		ll = LookupList{{Meta: meta, Subtables: []Subtable{outer}}, single, inner}
+	default: // the same with a coverage based outer rule and a backtrack glyph in front of the parent's input
+		inner := &LookupTable{Meta: &LookupMetaInfo{LookupType: 6}, Subtables: []Subtable{
+			&ChainedSeqContext3{Backtrack: []coverage.Set{set("b")}, Input: []coverage.Set{set("i0")}, Lookahead: []coverage.Set{set("l")}, Actions: []SeqLookup{{SequenceIndex: 0, LookupListIndex: 1}}}}}
+		outer := &SeqContext3{Input: []coverage.Set{set("o0")}, Actions: []SeqLookup{{SequenceIndex: 0, LookupListIndex: 2}}}
+		meta.LookupType = 5
+		ll = LookupList{{Meta: meta, Subtables: []Subtable{outer}}, single, inner}
+	}
+	seq := verifSeq(2+verifChoose("len", verifParam("maxlen", 2)), 4)
+	checkShape(ll, gd, []LookupIndex{0}, seq, "chained context")
+}
